@@ -52,7 +52,21 @@ type Case struct {
 	Args    []Arg    `json:"args"`
 	Steps   []Step   `json:"steps"`
 	U       []string `json:"universe"`
+	// indexed-state cases: files that exist and are in the index (together with every
+	// pre-existing .gitattributes) before the sequence starts
+	Indexed  string   `json:"indexed_state,omitempty"` // scenIdxMissing | scenIdxForbidden
+	IdxFiles []string `json:"indexed_files,omitempty"`
+	Victim   string   `json:"indexed_file_deleted_from_worktree,omitempty"`
+	Commit   bool     `json:"indexed_files_committed,omitempty"`
 }
+
+// Scenarios that drive `git lfs track` onto its error exits (os.Exit after .gitattributes
+// has been re-opened for writing). The command may legitimately fail there; what is judged
+// is that nothing but the requested pattern changes (see runCase).
+const (
+	scenIdxMissing   = "indexed-file-missing-from-worktree"    // an indexed file matching the new pattern is gone from the work tree: "Error marking ... modified", exit 2
+	scenIdxForbidden = "pattern-matches-indexed-gitattributes" // the new pattern matches the indexed .gitattributes/.gitignore: refused, exit 1
+)
 
 func (s Step) same(t Step) bool {
 	if s.Op != t.Op || len(s.Args) != len(t.Args) {
@@ -502,7 +516,7 @@ var otherPaths = []string{
 	"top.cfg", "big.iso", "third_party/z/big.iso", "plain", "nested/a.zip", "nested/Makefile",
 }
 
-var preKinds = []string{"absent", "comments", "macros", "crlf", "others", "mixed-eol-nofinalnl"}
+var preKinds = []string{"absent", "comments", "macros", "crlf", "others", "mixed-eol-nofinalnl", "big"}
 
 // buildPre returns file content for the variant. top: file is the top-level one.
 // own: a line for the argument's own pattern without filter=lfs ("" = none); it
@@ -540,6 +554,18 @@ func buildPre(r *rand.Rand, kind string, top bool, own string) *string {
 		if r.Intn(2) == 0 {
 			lines = append(lines, pick(r, commentLines))
 		}
+	case "big":
+		// larger than 4 KiB, with observable assignments before and after the 4096-byte mark
+		half := len(otherLines) / 2
+		lines = append(lines, otherLines[:half]...)
+		target := 4600 + r.Intn(3000)
+		for i := 0; len(strings.Join(lines, "\n")) < target; i++ {
+			if i%7 == 0 {
+				lines = append(lines, fmt.Sprintf("# generated section %d", i/7))
+			}
+			lines = append(lines, fmt.Sprintf("gen/mod%03d/*.%s myattr=%d", i, pick(r, []string{"dat", "tbl", "idx"}), i))
+		}
+		lines = append(lines, otherLines[half:]...)
 	default: // mixed
 		if top {
 			lines = append(lines, macroBlock[0], macroBlock[2])
@@ -851,7 +877,11 @@ var kindTable = []string{
 	"pattern", "filename-clean", "pattern-rich", "filename-esc", "own-line",
 	"pattern-rich", "two-args", "hazard", "filename-glob", "own-hazard",
 	"related-args", "parent-own-line",
+	"indexed", "indexed", "indexed", "indexed", // 4 of 26 = 15 %
 }
+
+var idxPreKinds = []string{"others", "big", "crlf", "mixed-eol-nofinalnl", "big", "macros"}
+var forbiddenPatterns = []string{".git*", "*", "*.gitattributes", ".gitattributes", "**/.gitattributes", ".git*", "*ttributes", ".gitattributes"}
 
 var hazards = []string{trigBang, trigDquote, trigTab, trigBracketSpc}
 var ownHazards = []string{"k2-lockable", "k3-foreign-filter"}
@@ -927,6 +957,40 @@ func genCase(seed int64, idx int) Case {
 		a := mk("pattern", genPattern(r, false, false), "")
 		a.Own = pick(r, []string{"parent-lockable", "parent-foreign-filter", "parent-text"})
 		c.Args = []Arg{a}
+	case "indexed":
+		round := idx / len(kindTable)
+		if idx%2 == 0 {
+			c.Indexed = scenIdxMissing
+		} else {
+			c.Indexed = scenIdxForbidden
+		}
+		if (idx/2)%2 == 1 {
+			c.Dir = dirs[3+r.Intn(len(dirs)-3)]
+		} else {
+			c.Dir = ""
+		}
+		c.PreKind = idxPreKinds[(round+idx)%len(idxPreKinds)]
+		c.Commit = r.Intn(2) == 0
+		if length < 2 {
+			length = 2 + r.Intn(3)
+		}
+		if c.Indexed == scenIdxMissing {
+			if r.Intn(3) == 0 {
+				c.Args = []Arg{mk("filename", genFilename(r, nameFocus(r.Intn(2))), "")}
+			} else {
+				c.Args = []Arg{mk("pattern", genPattern(r, false, false), "")}
+			}
+			if r.Intn(2) == 0 {
+				c.Args = append(c.Args, mk("pattern", genPattern(r, true, false), ""))
+			}
+		} else {
+			fp := forbiddenPatterns[(round+r.Intn(len(forbiddenPatterns)))%len(forbiddenPatterns)]
+			mode := "pattern"
+			if fp == ".gitattributes" && r.Intn(2) == 0 {
+				mode = "filename"
+			}
+			c.Args = []Arg{mk(mode, fp, ""), mk("pattern", genPattern(r, r.Intn(2) == 0, false), "")}
+		}
 	case "hazard":
 		hz := hazards[(idx/len(kindTable))%len(hazards)]
 		n := genHazardName(r, hz)
@@ -983,7 +1047,19 @@ func genCase(seed int64, idx int) Case {
 	case "parent-text":
 		parentOwn = c.Args[0].Text + " text myattr=parent"
 	}
-	if parentOwn != "" {
+	if c.Indexed != "" {
+		// never absent: several other patterns with attributes in the file that track rewrites
+		if c.Dir == "" {
+			c.PreRoot = buildPre(r, c.PreKind, true, "")
+		} else {
+			c.PreRoot = buildPre(r, pick(r, []string{"others", "macros", "big"}), true, "")
+			k := c.PreKind
+			if k == "macros" {
+				k = "others"
+			}
+			c.PreDir = buildPre(r, k, false, "")
+		}
+	} else if parentOwn != "" {
 		c.PreRoot = buildPre(r, c.PreKind, true, parentOwn)
 		dirKind := c.PreKind
 		if r.Intn(2) == 0 {
@@ -1005,8 +1081,45 @@ func genCase(seed int64, idx int) Case {
 		c.PreDir = buildPre(r, dirKind, false, own)
 	}
 	same := len(c.Args) == 2 && c.Args[0].Mode == c.Args[1].Mode
+	if c.Indexed != "" {
+		same = false // one argument per command: a refused pattern then always shows in the exit status
+	}
 	c.Steps = genSteps(r, len(c.Args), same, length, trackOnly)
 	c.U = buildUniverse(r, &c)
+	if c.Indexed != "" {
+		inDir := func(rel string) string {
+			if c.Dir == "" {
+				return rel
+			}
+			return c.Dir + "/" + rel
+		}
+		trackOp := pick(r, []string{"track", "track", "track-lockable"})
+		if c.Indexed == scenIdxMissing {
+			// the first command appends the pattern that matches the missing file
+			c.Steps[0] = Step{Op: trackOp, Args: []int{0}}
+			if c.Args[0].Mode == "filename" {
+				c.Victim = inDir(c.Args[0].Text)
+			} else {
+				c.Victim = inDir(expandPattern(r, c.Args[0].Text, true))
+			}
+			c.IdxFiles = append(c.IdxFiles, c.Victim)
+		} else {
+			// first something ordinary (so that LFS lines of this session exist too), then the refused pattern
+			c.Steps[0] = Step{Op: "track", Args: []int{1}}
+			c.Steps[1] = Step{Op: trackOp, Args: []int{0}}
+			c.IdxFiles = append(c.IdxFiles, ".gitignore")
+			if c.Dir != "" && r.Intn(2) == 0 {
+				c.IdxFiles = append(c.IdxFiles, inDir(".gitignore"))
+			}
+		}
+		// a few more files of the universe, some of them matching the arguments
+		for _, p := range []string{"a.txt", "a.zip", "docs/m.pdf", "p.psd", inDir("a.txt"), inDir("run.sh")} {
+			c.IdxFiles = append(c.IdxFiles, p)
+		}
+		for i := 0; i < 3; i++ {
+			c.IdxFiles = append(c.IdxFiles, c.U[r.Intn(len(c.U))])
+		}
+	}
 	return c
 }
 
@@ -1019,6 +1132,12 @@ func (c Case) class() string {
 	own := ""
 	if c.Args[0].Own != "" {
 		own = "/own=" + c.Args[0].Own
+	}
+	if c.Indexed != "" {
+		own += "/indexed-state=" + c.Indexed
+		if c.Commit {
+			own += "+committed"
+		}
 	}
 	return fmt.Sprintf("%s/%s/dir=%s/pre=%s%s", strings.Join(modes, "+"), strings.Join(feats, "|"), dirClass(c.Dir), c.PreKind, own)
 }
